@@ -50,8 +50,8 @@ SPEC = {
                   'for the pre-repair check order. Correspondence: real builder, real '
                   'merklemulti and real selectReport run against the model on generated inputs every run. '
                   'System level (Model/ExecSys.v, Proofs/ExecSysP.v): C08_report_sound_cycle - for every cycle of three rounds, every chain report of the Filter round re-verifies '
-                  '(contract-style) to the root of a commit report that f_j+1 distinct oracles reported identically in the GetCommitReports round and that names the chain report\'s '
-                  'source chain (C08_provable composed with C07 across the rounds); exercised on real plugins by the execsys part of C07 (sinks ExecSys_cycle_*)',
+                  '(contract-style) to the root of a commit report that f_dest+1 distinct oracles reported identically in the GetCommitReports round under the key of the chain report\'s '
+                  'source chain (C08_provable composed with C07 across the rounds; after the repairs of F75); exercised on real plugins by the execsys part of C07 (sinks ExecSys_cycle_*)',
     'level_note': 'Trusted: Coq kernel, hand-written model, differential harness; hash / hasher / codec / estimator are oracles. '
                   'Nonce order: the too-costly half of F14 is repaired (F14a, C08_nonce_order_costly_unfixed_refuted about the old '
                   'order); the size/gas-fallback half is still false of the code and recorded (C08_nonce_order_refuted, '
